@@ -203,6 +203,11 @@ def run_case(spec, j):
   M = est.get_mahalanobis_matrix()
   nM = max(np.abs(M).max(), 1e-300)
   lam = np.linalg.eigvalsh((M + M.T) / 2)
+  if abs(lam.min()) <= 100 * np.finfo(float).eps * d * nM and \
+          np.abs(M - M.T).max() <= 1e-9 * nM:
+    # (below the rounding level of M = L'L definiteness is not decidable)
+    j.skip('C12', 'metric-singular-to-rounding')
+    return
   j.check('C12.M-spd', np.abs(M - M.T).max() <= 1e-9 * nM and lam.min() > 0,
           dict(det, lambda_min=lam.min()))
   if lam.min() <= 0:
